@@ -26,6 +26,8 @@ pub enum Intent {
     Set { t: u8, p: u8, ts: i64, big: bool },
     Remove { t: u8, p: u8, ts: i64 },
     UndoPoint,
+    /// create n further tasks (C12: large snapshots)
+    Bulk { n: u16 },
 }
 
 #[derive(Serialize, Deserialize, Clone, Debug, PartialEq)]
@@ -36,6 +38,20 @@ pub enum Action {
     Undo,
     /// fetch the undo operations, commit `then`, and only then try to commit the reversal
     StaleUndo { then: Vec<Intent> },
+    /// commit operations exactly as given, valid or not (C05)
+    CommitRaw { ops: Vec<RawOp> },
+    /// another implementation of the documented protocol appends a version (C14): intents are
+    /// resolved against the chain's state and written in the documented format, with field
+    /// order, whitespace, escapes and timestamp precision chosen by `fmt`
+    Foreign { ops: Vec<Intent>, fmt: u64 },
+}
+
+#[derive(Serialize, Deserialize, Clone, Debug, PartialEq)]
+pub enum RawOp {
+    Create { t: u8 },
+    Delete { t: u8, old: Vec<(u8, String)> },
+    Update { t: u8, p: u8, old: Option<String>, val: Option<String>, ts: i64 },
+    UndoPoint,
 }
 
 #[derive(Serialize, Deserialize, Clone, Debug)]
@@ -54,6 +70,20 @@ pub struct Scenario {
     /// C03: round-structured history: rounds[r][replica] = the batch that replica commits in round r
     #[serde(default)]
     pub rounds: Vec<Vec<Vec<Intent>>>,
+    /// C04/C05: after the scripts, this action of this node is executed once per interruption
+    /// point and fault kind, each time from a copy of the state the scripts led to
+    #[serde(default)]
+    pub under_test: Option<(usize, Action)>,
+    /// skip the final synchronisation phase (checks whose oracle is purely local)
+    #[serde(default)]
+    pub no_final: bool,
+    /// 0: ASCII property names and values; 1: arbitrary Unicode (quotes, control characters, …)
+    #[serde(default)]
+    pub style: u8,
+    /// the last `late` nodes are new, empty replicas that only start after the others have
+    /// synchronized and the server has discarded the versions before its snapshot
+    #[serde(default)]
+    pub late: usize,
 }
 
 pub fn task_uuid(t: u8) -> Uuid {
@@ -62,14 +92,30 @@ pub fn task_uuid(t: u8) -> Uuid {
 pub fn prop_name(p: u8) -> String {
     format!("p{p}")
 }
-fn value_for(n: usize, a: usize, i: usize, big: bool) -> String {
+const EXOTIC_PROPS: &[&str] = &["p0", "desc ription", "ключ", "\"q\"", "a.b\\c", "😀", "tab\there", "ünï"];
+const EXOTIC_VALS: &[&str] = &["\"quoted\"", "back\\slash", "líne\nbreak", "tab\t", "emoji😀", "עברית", "nul\u{0}byte", "\u{feff}bom", "e\u{301}", "sep\u{2028}", "{\"json\":[1]}", ""];
+pub fn prop_name_s(p: u8, style: u8) -> String {
+    if style == 0 {
+        prop_name(p)
+    } else {
+        EXOTIC_PROPS[p as usize % EXOTIC_PROPS.len()].to_string()
+    }
+}
+fn value_for(n: usize, a: usize, i: usize, big: bool, style: u8) -> String {
     let mut s = format!("v{n}.{a}.{i}");
+    if style != 0 {
+        s.push('~');
+        s.push_str(EXOTIC_VALS[(n * 7 + a * 3 + i) % EXOTIC_VALS.len()]);
+    }
     if big {
         let pad = BIG - s.len();
         s.push(':');
         s.push_str(&"x".repeat(pad));
     }
     s
+}
+pub fn bulk_uuid(j: u32) -> Uuid {
+    Uuid::from_u128(0x7a5c0000_0000_4000_8000_000000010000u128 + j as u128)
 }
 
 #[derive(Clone, Debug, PartialEq)]
@@ -140,13 +186,28 @@ fn fired_total() -> u64 {
 
 /// Build the operations for a list of intents the way an application would: through the public
 /// `TaskData` API, against the replica's current view. Returns None if reading failed (fault).
-async fn build_ops(n: usize, a: usize, replica: &mut Replica<SimStorage>, intents: &[Intent], now_ns: i64) -> Option<Operations> {
+async fn build_ops(n: usize, a: usize, replica: &mut Replica<SimStorage>, intents: &[Intent], now_ns: i64, style: u8) -> Option<Operations> {
     let mut ops = Operations::new();
     let mut view: BTreeMap<u8, Option<TaskData>> = BTreeMap::new();
     for (i, it) in intents.iter().enumerate() {
         let t = match it {
             Intent::UndoPoint => {
                 ops.push(Operation::UndoPoint);
+                continue;
+            }
+            Intent::Bulk { n: count } => {
+                // many new tasks at once (only tasks that do not exist yet)
+                for j in 0..*count as u32 {
+                    let u = bulk_uuid(j);
+                    match replica.get_task_data(u).await {
+                        Ok(None) => {
+                            let mut td = TaskData::create(u, &mut ops);
+                            td.update("description", Some(format!("bulk{n}.{a}.{j}")), &mut ops);
+                        }
+                        Ok(Some(_)) => {}
+                        Err(_) => return None,
+                    }
+                }
                 continue;
             }
             Intent::Create { t } | Intent::Delete { t } | Intent::Set { t, .. } | Intent::Remove { t, .. } => *t,
@@ -174,16 +235,16 @@ async fn build_ops(n: usize, a: usize, replica: &mut Replica<SimStorage>, intent
             Intent::Set { p, ts, big, .. } => {
                 if let Some(td) = slot.as_mut() {
                     interpose::set_now_ns((EPOCH0 + ts) * 1_000_000_000);
-                    td.update(prop_name(*p), Some(value_for(n, a, i, *big)), &mut ops);
+                    td.update(prop_name_s(*p, style), Some(value_for(n, a, i, *big, style)), &mut ops);
                 }
             }
             Intent::Remove { p, ts, .. } => {
                 if let Some(td) = slot.as_mut() {
                     interpose::set_now_ns((EPOCH0 + ts) * 1_000_000_000);
-                    td.update(prop_name(*p), None, &mut ops);
+                    td.update(prop_name_s(*p, style), None, &mut ops);
                 }
             }
-            Intent::UndoPoint => unreachable!(),
+            Intent::UndoPoint | Intent::Bulk { .. } => unreachable!(),
         }
     }
     interpose::set_now_ns(now_ns);
@@ -194,9 +255,32 @@ async fn do_commit(n: usize, a: usize, w: &Rc<RefCell<World>>, replica: &mut Rep
     let now = w.borrow().now_ns;
     let f0 = fired_total();
     let epoch = w.borrow().epoch;
-    let Some(ops) = build_ops(n, epoch * 10_000 + a, replica, intents, now).await else {
+    let style = w.borrow().sc.style;
+    let Some(ops) = build_ops(n, epoch * 10_000 + a, replica, intents, now, style).await else {
         return;
     };
+    commit_ops(n, a, w, replica, ops, f0).await
+}
+
+fn raw_to_ops(raw: &[RawOp]) -> Operations {
+    use taskchampion::chrono::{TimeZone, Utc};
+    raw.iter()
+        .map(|r| match r {
+            RawOp::Create { t } => Operation::Create { uuid: task_uuid(*t) },
+            RawOp::Delete { t, old } => Operation::Delete { uuid: task_uuid(*t), old_task: old.iter().map(|(p, v)| (prop_name(*p), v.clone())).collect() },
+            RawOp::Update { t, p, old, val, ts } => Operation::Update {
+                uuid: task_uuid(*t),
+                property: prop_name(*p),
+                old_value: old.clone(),
+                value: val.clone(),
+                timestamp: Utc.timestamp_opt(EPOCH0 + ts, 0).unwrap(),
+            },
+            RawOp::UndoPoint => Operation::UndoPoint,
+        })
+        .collect()
+}
+
+async fn commit_ops(n: usize, a: usize, w: &Rc<RefCell<World>>, replica: &mut Replica<SimStorage>, ops: Operations, f0: u64) {
     if ops.is_empty() {
         return;
     }
@@ -246,6 +330,10 @@ async fn do_sync(n: usize, a: usize, w: &Rc<RefCell<World>>, replica: &mut Repli
         sw.expect_snapshot.remove(&n);
     }
     let ev0 = w.borrow().server.borrow().events.len();
+    let was_empty = {
+        let st = simstorage::read_mem(&w.borrow().stores[n]);
+        st.tasks.is_empty() && st.unsynced.is_empty() && st.base_version.is_nil() && st.working_set.iter().all(|x| x.is_none())
+    };
     let r = replica.sync(server, avoid).await;
     let faulted = fired_total() > f0;
     let mut wb = w.borrow_mut();
@@ -257,8 +345,15 @@ async fn do_sync(n: usize, a: usize, w: &Rc<RefCell<World>>, replica: &mut Repli
         let mut pulled = false;
         let mut rejected = false;
         let mut pushes = 0;
+        let mut asked_snapshot = false;
         for e in &sw.events[ev0..] {
             match e {
+                SrvEvent::GetSnapshot { node, found } if *node == n => {
+                    asked_snapshot = true;
+                    if found.is_some() {
+                        wb.probes.entry("sync.started_from_snapshot".into()).and_modify(|x| *x += 1).or_insert(1);
+                    }
+                }
                 SrvEvent::GetChild { node, found: Some(_), .. } if *node == n => pulled = true,
                 SrvEvent::Add { node, result, .. } if *node == n => match result {
                     model::AddResult::Ok(_) => {
@@ -273,6 +368,9 @@ async fn do_sync(n: usize, a: usize, w: &Rc<RefCell<World>>, replica: &mut Repli
             }
         }
         drop(sw);
+        if asked_snapshot && !was_empty {
+            wb.violation("snapshot.nonempty", "requested", format!("node {n} action {a}: a replica that already holds data asked the server for a snapshot"));
+        }
         if pulled && pushes > 0 {
             wb.probe("sync.pull_then_push");
         }
@@ -314,6 +412,14 @@ async fn do_undo(n: usize, a: usize, w: &Rc<RefCell<World>>, replica: &mut Repli
     let Ok(undo_ops) = replica.get_undo_operations().await else {
         return;
     };
+    {
+        // the fetched list is: back to and including the last undo point, else everything unsynced
+        let cur = simstorage::read_mem(&w.borrow().stores[n]);
+        let from = cur.unsynced.iter().rposition(|o| o.is_undo_point()).unwrap_or(0);
+        if undo_ops[..] != cur.unsynced[from..] && fired_total() == f0 {
+            w.borrow_mut().violation("undo.list", "wrong-range", format!("node {n} action {a}: get_undo_operations returned {} operations, expected the {} since the last undo point", undo_ops.len(), cur.unsynced.len() - from));
+        }
+    }
     let mut stale = false;
     if let Some(intents) = then {
         let before = simstorage::read_mem(&w.borrow().stores[n]);
@@ -322,6 +428,9 @@ async fn do_undo(n: usize, a: usize, w: &Rc<RefCell<World>>, replica: &mut Repli
         stale = after.unsynced.len() != before.unsynced.len();
     }
     let before = simstorage::read_mem(&w.borrow().stores[n]);
+    // the list is stale iff it is no longer the tail of the unsynchronized operations
+    let _ = stale;
+    let stale = !(before.unsynced.len() >= undo_ops.len() && before.unsynced[before.unsynced.len() - undo_ops.len()..] == undo_ops[..]);
     let r = replica.commit_reversed_operations(undo_ops.clone()).await;
     let faulted = fired_total() > f0;
     let after = simstorage::read_mem(&w.borrow().stores[n]);
@@ -366,6 +475,121 @@ async fn do_undo(n: usize, a: usize, w: &Rc<RefCell<World>>, replica: &mut Repli
         }
     }
     wb.log(|| format!("n{n} a{a} undo {} ops stale={stale} -> {:?}", undo_ops.len(), r.as_ref().map_err(|e| e.to_string())));
+}
+
+fn json_str(s: &str, escape_non_ascii: bool) -> String {
+    let mut o = String::from("\"");
+    for c in s.chars() {
+        match c {
+            '"' => o.push_str("\\\""),
+            '\\' => o.push_str("\\\\"),
+            '\n' => o.push_str("\\n"),
+            '\t' => o.push_str("\\t"),
+            c if (c as u32) < 0x20 => o.push_str(&format!("\\u{:04x}", c as u32)),
+            c if escape_non_ascii && !c.is_ascii() => {
+                let mut b = [0u16; 2];
+                for u in c.encode_utf16(&mut b) {
+                    o.push_str(&format!("\\u{:04x}", u));
+                }
+            }
+            c => o.push(c),
+        }
+    }
+    o.push('"');
+    o
+}
+
+fn fmt_ts(secs: i64, frac_digits: u32, nanos: u32) -> String {
+    // civil from days (Howard Hinnant)
+    let days = secs.div_euclid(86400);
+    let rem = secs.rem_euclid(86400);
+    let z = days + 719468;
+    let era = z.div_euclid(146097);
+    let doe = z.rem_euclid(146097);
+    let yoe = (doe - doe / 1460 + doe / 36524 - doe / 146096) / 365;
+    let y = yoe + era * 400;
+    let doy = doe - (365 * yoe + yoe / 4 - yoe / 100);
+    let mp = (5 * doy + 2) / 153;
+    let d = doy - (153 * mp + 2) / 5 + 1;
+    let m = if mp < 10 { mp + 3 } else { mp - 9 };
+    let y = if m <= 2 { y + 1 } else { y };
+    let mut s = format!("{:04}-{:02}-{:02}T{:02}:{:02}:{:02}", y, m, d, rem / 3600, (rem / 60) % 60, rem % 60);
+    if frac_digits > 0 {
+        let f = format!("{:09}", nanos);
+        s.push('.');
+        s.push_str(&f[..frac_digits as usize]);
+    }
+    s.push('Z');
+    s
+}
+
+/// A foreign implementation appends a version written from the documented grammar.
+fn do_foreign(n: usize, a: usize, w: &Rc<RefCell<World>>, intents: &[Intent], fmt: u64) {
+    let mut rng = Rng::new(fmt);
+    let mut wb = w.borrow_mut();
+    let style = wb.sc.style;
+    let epoch = wb.epoch;
+    let srv = wb.server.clone();
+    let mut state = srv.borrow().chain.state_latest().unwrap_or_default();
+    let esc = rng.chance(1, 2);
+    let mut parts: Vec<String> = Vec::new();
+    let ws = |rng: &mut Rng| -> &'static str { *rng.pick(&["", "", " ", "\n", "  \t"]) };
+    for (i, it) in intents.iter().enumerate() {
+        match it {
+            Intent::Create { t } => {
+                let u = task_uuid(*t);
+                if !state.contains_key(&u) {
+                    state.insert(u, Default::default());
+                    parts.push(format!("{{{}\"Create\"{}:{}{{\"uuid\":{}\"{}\"{}}}}}", ws(&mut rng), ws(&mut rng), ws(&mut rng), ws(&mut rng), u, ws(&mut rng)));
+                }
+            }
+            Intent::Delete { t } => {
+                let u = task_uuid(*t);
+                if state.remove(&u).is_some() {
+                    parts.push(format!("{{\"Delete\":{{{}\"uuid\":\"{}\"}}}}", ws(&mut rng), u));
+                }
+            }
+            Intent::Set { t, p, ts, .. } | Intent::Remove { t, p, ts } => {
+                let u = task_uuid(*t);
+                if let Some(task) = state.get_mut(&u) {
+                    let prop = prop_name_s(*p, style);
+                    let val = if matches!(it, Intent::Set { .. }) { Some(format!("f{n}.{}.{i}{}", epoch * 10_000 + a, if style != 0 { "~✓\"\\" } else { "" })) } else { None };
+                    match &val {
+                        Some(v) => {
+                            task.insert(prop.clone(), v.clone());
+                        }
+                        None => {
+                            task.remove(&prop);
+                        }
+                    }
+                    let digits = *rng.pick(&[0u32, 3, 6, 9]);
+                    let nanos = (rng.below(1_000_000_000)) as u32;
+                    let mut fields = vec![
+                        format!("\"uuid\"{}:{}\"{}\"", ws(&mut rng), ws(&mut rng), u),
+                        format!("\"property\":{}", json_str(&prop, esc)),
+                        format!("\"value\":{}{}", ws(&mut rng), match &val { Some(v) => json_str(v, esc), None => "null".to_string() }),
+                        format!("\"timestamp\":\"{}\"", fmt_ts(EPOCH0 + ts, digits, nanos)),
+                    ];
+                    rng.shuffle(&mut fields);
+                    parts.push(format!("{{\"Update\":{}{{{}}}{}}}", ws(&mut rng), fields.join(&format!(",{}", ws(&mut rng))), ws(&mut rng)));
+                }
+            }
+            Intent::UndoPoint | Intent::Bulk { .. } => {}
+        }
+    }
+    if parts.is_empty() {
+        return;
+    }
+    let doc = format!("{}{{{}\"operations\"{}:{}[{}]{}}}{}", ws(&mut rng), ws(&mut rng), ws(&mut rng), ws(&mut rng), parts.join(&format!("{},{}", ws(&mut rng), ws(&mut rng))), ws(&mut rng), ws(&mut rng));
+    let parent = srv.borrow().chain.latest;
+    let (r, _) = srv.borrow_mut().do_add_version(usize::MAX, parent, doc.clone().into_bytes());
+    // the harness's own decoder must read what the harness wrote (otherwise: harness error)
+    let decodable = srv.borrow().chain.versions.last().map(|v| v.ops.is_some()).unwrap_or(false);
+    if !decodable {
+        wb.violation("harness", "foreign-undecodable", format!("foreign version not decodable by the reference decoder: {doc}"));
+    }
+    wb.probe("foreign.added");
+    wb.log(|| format!("n{n} a{a} foreign version {:?}: {}", r, doc.replace('\n', "\\n")));
 }
 
 /// Replica invariant (docs/src/sync-model.md): tasks == M-apply(state_at(base_version), unsynced ops).
@@ -424,6 +648,11 @@ fn make_node(n: usize, w: Rc<RefCell<World>>) -> NodeFut {
                 }
                 Action::Undo => do_undo(n, a, &w, &mut replica, None).await,
                 Action::StaleUndo { then } => do_undo(n, a, &w, &mut replica, Some(then)).await,
+                Action::CommitRaw { ops } => {
+                    let f0 = fired_total();
+                    commit_ops(n, a, &w, &mut replica, raw_to_ops(ops), f0).await
+                }
+                Action::Foreign { ops, fmt } => do_foreign(n, a, &w, ops, *fmt),
             }
             post_check(n, &w, &format!("action {a}"));
         }
@@ -611,8 +840,12 @@ fn has_violations(w: &W) -> bool {
 
 /// Final phase: faults off, every node syncs round-robin until quiescent (bounded liveness).
 fn final_phase(w: &W) -> bool {
-    exec::with_ctx(|c| c.faults.clear());
     let n = w.borrow().sc.nodes;
+    final_phase_upto(w, n)
+}
+
+fn final_phase_upto(w: &W, n: usize) -> bool {
+    exec::with_ctx(|c| c.faults.clear());
     let mut rounds = 0;
     let mut quiescent = false;
     let stores: Vec<MemStore> = w.borrow().stores.clone();
@@ -717,15 +950,430 @@ pub fn run(scv: &Value, want_log: bool) -> RunResult {
     };
     exec::install(Ctx::new(sc.nodes));
     let w = new_world(&sc, want_log);
-    run_scripted(&w, &sc.faults, None);
-    if !has_violations(&w) && final_phase(&w) {
+    if sc.late > 0 && sc.late < sc.nodes {
+        let early: Vec<usize> = (0..sc.nodes - sc.late).collect();
+        let late: Vec<usize> = (sc.nodes - sc.late..sc.nodes).collect();
+        run_scripted(&w, &sc.faults, Some(&early));
+        if !has_violations(&w) && final_phase_upto(&w, sc.nodes - sc.late) {
+            // every existing replica is at the latest version: the server may now drop the
+            // versions that its snapshot covers
+            let wb = w.borrow();
+            let mut sw = wb.server.borrow_mut();
+            if let Some((sv, _)) = sw.chain.snapshot.clone() {
+                if let Some(i) = sw.chain.index_of(sv) {
+                    sw.chain.discarded_before = i + 1;
+                    drop(sw);
+                    drop(wb);
+                    w.borrow_mut().probe("c12.versions_discarded");
+                }
+            }
+        }
+        if !has_violations(&w) {
+            run_scripted(&w, &sc.faults, Some(&late));
+        }
+    } else {
+        run_scripted(&w, &sc.faults, None);
+    }
+    if !sc.no_final && !has_violations(&w) && final_phase(&w) {
         history_oracles(&w);
     }
     let probe: &[&str] = match sc.check.as_str() {
+        "C12" => &["srv.add_snapshot"],
+        "C14" => &["foreign.added"],
         "C02" => &["srv.add_version.rejected"],
+        "C07" => &["undo.ok"],
         _ => &["sync.pull_then_push"],
     };
     finish(&w, 1, probe)
+}
+
+// ---- C04 / C05: fault sweeps over one action ----------------------------------------------------
+
+fn set_single_script(w: &W, v: usize, action: Option<Action>, epoch: usize) {
+    let mut wb = w.borrow_mut();
+    let n = wb.sc.nodes;
+    wb.sc.scripts = (0..n).map(|j| if j == v { action.iter().cloned().collect() } else { vec![] }).collect();
+    wb.pc = vec![0; n];
+    wb.sc.atomic_sync = true;
+    wb.epoch = epoch;
+}
+
+fn same_store(a: &StoreState, b: &StoreState) -> bool {
+    a.tasks == b.tasks && a.base_version == b.base_version && a.unsynced == b.unsynced && a.working_set == b.working_set
+}
+
+pub fn run_sweep(scv: &Value, want_log: bool) -> RunResult {
+    let sc = match parse_scenario(scv) {
+        Ok(s) => s,
+        Err(r) => return r,
+    };
+    exec::install(Ctx::new(sc.nodes));
+    let w = new_world(&sc, want_log);
+    run_scripted(&w, &sc.faults, None);
+    let mut evals = 0u64;
+    let Some((v, action)) = sc.under_test.clone() else { return finish(&w, 1, &[]) };
+    if has_violations(&w) || v >= sc.nodes {
+        return finish(&w, 1, &[]);
+    }
+    let is_sync = matches!(action, Action::Sync { .. });
+    // dry run: count the interruption points of the action and record the uninterrupted outcome
+    let dry = fork(&w);
+    set_single_script(&dry, v, Some(action.clone()), 50);
+    exec::with_ctx(|c| {
+        c.record_points = true;
+        c.point_log.clear();
+    });
+    run_scripted(&dry, &[], Some(&[v]));
+    let points: Vec<(u32, &'static str)> = exec::with_ctx(|c| {
+        c.record_points = false;
+        let p = c.point_log.iter().filter(|x| x.0 == v && x.1 == 0).map(|x| (x.2, x.3)).collect();
+        c.point_log.clear();
+        p
+    })
+    .unwrap();
+    evals += 1;
+    if has_violations(&dry) {
+        absorb(&w, &dry, "uninterrupted");
+        return finish(&w, evals, &[]);
+    }
+    let before = simstorage::read_mem(&w.borrow().stores[v]);
+    let after = simstorage::read_mem(&dry.borrow().stores[v]);
+    let chain_after = dry.borrow().server.borrow().chain.state_latest().unwrap_or_default();
+    if is_sync {
+        let ev = &dry.borrow().probes;
+        if ev.contains_key("sync.pull_then_push") {
+            w.borrow_mut().probe("sweep.sync_pull_then_push");
+        }
+        if ev.contains_key("sync.multi_batch") {
+            w.borrow_mut().probe("sweep.sync_multi_batch");
+        }
+    }
+    w.borrow_mut().probe("sweep.actions");
+    'sweep: for (ord, label) in points {
+        if label == "act" {
+            continue;
+        }
+        for kind in [Decision::FailBefore, Decision::FailAfter, Decision::Crash] {
+            let c = fork(&w);
+            set_single_script(&c, v, Some(action.clone()), 50);
+            run_scripted(&c, &[(v, 0, ord, kind)], Some(&[v]));
+            evals += 1;
+            let tag = format!("{label}/{}", kind.name());
+            w.borrow_mut().probe("sweep.points");
+            if !has_violations(&c) {
+                let st = simstorage::read_mem(&c.borrow().stores[v]);
+                if !is_sync {
+                    // all or nothing
+                    if !same_store(&st, &before) && !same_store(&st, &after) {
+                        c.borrow_mut().violation(
+                            "commit.atomic",
+                            "partial",
+                            format!("node {v}: after an interruption at point #{ord} the store is neither the before- nor the after-state of the commit\n  before: {} ({} unsynced)\n  after:  {} ({} unsynced)\n  found:  {} ({} unsynced)",
+                                model::fmt_taskset(&before.tasks), before.unsynced.len(), model::fmt_taskset(&after.tasks), after.unsynced.len(), model::fmt_taskset(&st.tasks), st.unsynced.len()),
+                        );
+                    }
+                } else {
+                    // synchronizing again reaches the result of the uninterrupted sync
+                    set_single_script(&c, v, Some(Action::Sync { avoid: true }), 51);
+                    run_scripted(&c, &[], Some(&[v]));
+                    if !has_violations(&c) {
+                        let st2 = simstorage::read_mem(&c.borrow().stores[v]);
+                        let chain2 = c.borrow().server.borrow().chain.state_latest().unwrap_or_default();
+                        if st2.tasks != after.tasks || chain2 != chain_after {
+                            c.borrow_mut().violation(
+                                "resync",
+                                "differs",
+                                format!("node {v}: sync interrupted at point #{ord}, then repeated: result differs from the uninterrupted sync\n  uninterrupted: replica {} chain {}\n  repeated:      replica {} chain {}",
+                                    model::fmt_taskset(&after.tasks), model::fmt_taskset(&chain_after), model::fmt_taskset(&st2.tasks), model::fmt_taskset(&chain2)),
+                            );
+                        } else if !st2.unsynced.iter().all(|o| o.is_undo_point()) {
+                            c.borrow_mut().violation("resync", "pending", format!("node {v}: after the repeated sync operations are still unsynchronized"));
+                        }
+                    }
+                    if !has_violations(&c) && !sc.no_final && final_phase(&c) {
+                        history_oracles(&c);
+                    }
+                }
+            }
+            let bad = has_violations(&c);
+            absorb(&w, &c, &tag);
+            if bad {
+                break 'sweep;
+            }
+        }
+    }
+    finish(&w, evals, &["sweep.points"])
+}
+
+fn gen_raw(rng: &mut Rng, tasks: u8, props: u8, tag: &str) -> Vec<RawOp> {
+    let k = rng.usize_below(9);
+    let mut v = Vec::new();
+    for i in 0..k {
+        let t = rng.below(tasks as u64) as u8;
+        let p = rng.below(props as u64) as u8;
+        let x = rng.below(100);
+        v.push(if x < 22 {
+            RawOp::Create { t }
+        } else if x < 40 {
+            let old = (0..rng.below(3)).map(|j| (j as u8, format!("old{j}"))).collect();
+            RawOp::Delete { t, old }
+        } else if x < 90 {
+            let val = if rng.chance(1, 5) { None } else { Some(format!("r{tag}.{i}")) };
+            let old = if rng.chance(1, 2) { None } else { Some(format!("o{i}")) };
+            RawOp::Update { t, p, old, val, ts: rng.range(-3, 3) }
+        } else {
+            RawOp::UndoPoint
+        });
+    }
+    v
+}
+
+pub fn gen_c04(seed: u64, i: u64, thorough: bool) -> Value {
+    let s = mix(seed, "C04", i);
+    let mut rng = Rng::new(s);
+    let nodes = *rng.pick(&[1usize, 2, 2, 2, 3, 3]);
+    let mut g = GenCfg { tasks: 1 + rng.below(3) as u8, props: 1 + rng.below(3) as u8, ts_policy: rng.below(4) as u8, ts_counter: 0 };
+    let big_run = rng.chance(1, if thorough { 40 } else { 120 });
+    let v = rng.usize_below(nodes);
+    let mut scripts = Vec::new();
+    for n in 0..nodes {
+        let len = 1 + rng.usize_below(if big_run { 3 } else { 7 });
+        let mut sc = Vec::new();
+        for _ in 0..len {
+            if rng.chance(4, 10) {
+                sc.push(Action::Sync { avoid: rng.chance(1, 2) });
+            } else {
+                sc.push(Action::Commit { ops: gen_intents(&mut rng, &mut g, 4, true) });
+            }
+        }
+        if n == v && rng.chance(4, 5) {
+            let mut ops = gen_intents(&mut rng, &mut g, 4, false);
+            if big_run {
+                let t = rng.below(g.tasks as u64) as u8;
+                ops.insert(0, Intent::Create { t });
+                for _ in 0..3 {
+                    ops.push(Intent::Set { t, p: rng.below(g.props as u64) as u8, ts: gen_ts(&mut rng, &mut g), big: true });
+                }
+                ops.push(Intent::Set { t, p: rng.below(g.props as u64) as u8, ts: gen_ts(&mut rng, &mut g), big: false });
+            }
+            sc.push(Action::Commit { ops });
+        }
+        scripts.push(sc);
+    }
+    let sc = Scenario {
+        check: "C04".into(),
+        seed: s,
+        nodes,
+        scripts,
+        sched_seed: rng.next_u64(),
+        atomic_sync: rng.chance(1, 2),
+        bias: 0,
+        faults: vec![],
+        urgency_mode: *rng.pick(&[0u8, 1, 1, 2]),
+        srv_seed: rng.next_u64(),
+        rounds: vec![],
+        under_test: Some((v, Action::Sync { avoid: rng.chance(1, 2) })),
+        no_final: false,
+        style: 0,
+        late: 0,
+    };
+    serde_json::to_value(sc).unwrap()
+}
+
+pub fn gen_c05(seed: u64, i: u64, _thorough: bool) -> Value {
+    let s = mix(seed, "C05", i);
+    let mut rng = Rng::new(s);
+    let nodes = *rng.pick(&[1usize, 1, 2]);
+    let mut g = GenCfg { tasks: 1 + rng.below(3) as u8, props: 1 + rng.below(3) as u8, ts_policy: rng.below(4) as u8, ts_counter: 0 };
+    let mut scripts = Vec::new();
+    for n in 0..nodes {
+        let len = rng.usize_below(6);
+        let mut sc = Vec::new();
+        for _ in 0..len {
+            match rng.below(10) {
+                0..=2 => sc.push(Action::Sync { avoid: true }),
+                3 => sc.push(Action::Undo),
+                _ => sc.push(Action::Commit { ops: gen_intents(&mut rng, &mut g, 5, true) }),
+            }
+        }
+        if n == 0 {
+            // arbitrary batches, valid or not, on whatever state the history produced
+            for k in 0..rng.usize_below(4) {
+                sc.push(Action::CommitRaw { ops: gen_raw(&mut rng, g.tasks, g.props, &format!("{k}")) });
+            }
+        }
+        scripts.push(sc);
+    }
+    let under = if rng.chance(2, 3) { Action::CommitRaw { ops: gen_raw(&mut rng, g.tasks, g.props, "u") } } else { Action::Commit { ops: gen_intents(&mut rng, &mut g, 6, true) } };
+    let sc = Scenario {
+        check: "C05".into(),
+        seed: s,
+        nodes,
+        scripts,
+        sched_seed: rng.next_u64(),
+        atomic_sync: true,
+        bias: 0,
+        faults: vec![],
+        urgency_mode: 0,
+        srv_seed: rng.next_u64(),
+        rounds: vec![],
+        under_test: Some((0, under)),
+        no_final: true,
+        style: 0,
+        late: 0,
+    };
+    serde_json::to_value(sc).unwrap()
+}
+
+pub fn gen_c07(seed: u64, i: u64, _thorough: bool) -> Value {
+    let s = mix(seed, "C07", i);
+    let mut rng = Rng::new(s);
+    let nodes = *rng.pick(&[1usize, 1, 2, 2, 3]);
+    let mut g = GenCfg { tasks: 1 + rng.below(3) as u8, props: 1 + rng.below(3) as u8, ts_policy: rng.below(4) as u8, ts_counter: 0 };
+    let mut scripts = Vec::new();
+    for _ in 0..nodes {
+        let len = 2 + rng.usize_below(12);
+        let mut sc = Vec::new();
+        for _ in 0..len {
+            match rng.below(20) {
+                0..=3 => sc.push(Action::Sync { avoid: rng.chance(1, 2) }),
+                4..=8 => sc.push(Action::Undo),
+                9..=10 => sc.push(Action::StaleUndo { then: gen_intents(&mut rng, &mut g, 3, true) }),
+                _ => {
+                    let mut ops = gen_intents(&mut rng, &mut g, 5, true);
+                    if rng.chance(2, 3) {
+                        ops.insert(0, Intent::UndoPoint);
+                    }
+                    sc.push(Action::Commit { ops });
+                }
+            }
+        }
+        scripts.push(sc);
+    }
+    let sc = Scenario {
+        check: "C07".into(),
+        seed: s,
+        nodes,
+        scripts,
+        sched_seed: rng.next_u64(),
+        atomic_sync: rng.chance(2, 3),
+        bias: 0,
+        faults: vec![],
+        urgency_mode: 0,
+        srv_seed: rng.next_u64(),
+        rounds: vec![],
+        under_test: None,
+        no_final: false,
+        style: 0,
+        late: 0,
+    };
+    serde_json::to_value(sc).unwrap()
+}
+
+pub fn gen_c12(seed: u64, i: u64, thorough: bool) -> Value {
+    let s = mix(seed, "C12", i);
+    let mut rng = Rng::new(s);
+    let early = *rng.pick(&[1usize, 2, 2, 3]);
+    let late = *rng.pick(&[0usize, 1, 1, 2]);
+    let nodes = early + late;
+    let mut g = GenCfg { tasks: 1 + rng.below(4) as u8, props: 1 + rng.below(4) as u8, ts_policy: rng.below(4) as u8, ts_counter: 0 };
+    let big_run = rng.chance(1, if thorough { 25 } else { 60 });
+    let bulk_run = thorough && rng.chance(1, 200);
+    let mut scripts = Vec::new();
+    for n in 0..nodes {
+        let is_late = n >= early;
+        let len = 1 + rng.usize_below(if big_run { 4 } else { 10 });
+        let mut sc = Vec::new();
+        if is_late {
+            sc.push(Action::Sync { avoid: rng.chance(1, 2) });
+        }
+        for k in 0..len {
+            if rng.chance(45, 100) {
+                sc.push(Action::Sync { avoid: rng.chance(1, 2) });
+            } else {
+                let mut ops = gen_intents(&mut rng, &mut g, 5, true);
+                if big_run && rng.chance(1, 2) {
+                    let t = rng.below(g.tasks as u64) as u8;
+                    ops.insert(0, Intent::Create { t });
+                    for _ in 0..(2 + rng.below(2)) {
+                        ops.push(Intent::Set { t, p: rng.below(g.props as u64) as u8, ts: gen_ts(&mut rng, &mut g), big: true });
+                    }
+                    ops.push(Intent::Set { t, p: rng.below(g.props as u64) as u8, ts: gen_ts(&mut rng, &mut g), big: false });
+                }
+                if bulk_run && n == 0 && k == 0 {
+                    ops.push(Intent::Bulk { n: 1500 + rng.below(2500) as u16 });
+                }
+                sc.push(Action::Commit { ops });
+            }
+        }
+        if !is_late && rng.chance(2, 3) {
+            sc.push(Action::Sync { avoid: rng.chance(1, 3) });
+        }
+        scripts.push(sc);
+    }
+    let sc = Scenario {
+        check: "C12".into(),
+        seed: s,
+        nodes,
+        scripts,
+        sched_seed: rng.next_u64(),
+        atomic_sync: rng.chance(1, 2),
+        bias: rng.below(3) as u8,
+        faults: vec![],
+        urgency_mode: *rng.pick(&[1u8, 1, 1, 2, 3]),
+        srv_seed: rng.next_u64(),
+        rounds: vec![],
+        under_test: None,
+        no_final: false,
+        style: rng.below(2) as u8,
+        late,
+    };
+    serde_json::to_value(sc).unwrap()
+}
+
+pub fn gen_c14(seed: u64, i: u64, _thorough: bool) -> Value {
+    let s = mix(seed, "C14", i);
+    let mut rng = Rng::new(s);
+    let nodes = *rng.pick(&[1usize, 2, 2, 3]);
+    let mut g = GenCfg { tasks: 1 + rng.below(4) as u8, props: 1 + rng.below(5) as u8, ts_policy: rng.below(4) as u8, ts_counter: 0 };
+    let mut scripts = Vec::new();
+    for _ in 0..nodes {
+        let len = 2 + rng.usize_below(10);
+        let mut sc = Vec::new();
+        for _ in 0..len {
+            match rng.below(20) {
+                0..=7 => sc.push(Action::Sync { avoid: rng.chance(1, 2) }),
+                8..=11 => sc.push(Action::Foreign { ops: gen_intents(&mut rng, &mut g, 5, false), fmt: rng.next_u64() }),
+                12 => sc.push(Action::Undo),
+                _ => {
+                    let mut ops = gen_intents(&mut rng, &mut g, 6, true);
+                    if rng.chance(1, 2) {
+                        ops.insert(0, Intent::UndoPoint);
+                    }
+                    sc.push(Action::Commit { ops });
+                }
+            }
+        }
+        scripts.push(sc);
+    }
+    let sc = Scenario {
+        check: "C14".into(),
+        seed: s,
+        nodes,
+        scripts,
+        sched_seed: rng.next_u64(),
+        atomic_sync: true,
+        bias: 0,
+        faults: vec![],
+        urgency_mode: 0,
+        srv_seed: rng.next_u64(),
+        rounds: vec![],
+        under_test: None,
+        no_final: false,
+        style: rng.below(2) as u8,
+        late: 0,
+    };
+    serde_json::to_value(sc).unwrap()
 }
 
 // ---- C03: documented winners, independent of sync order -------------------------------------
@@ -1024,6 +1672,10 @@ pub fn gen_c03(seed: u64, i: u64, _thorough: bool) -> Value {
         urgency_mode: 0,
         srv_seed: rng.next_u64(),
         rounds,
+        under_test: None,
+        no_final: false,
+        style: 0,
+        late: 0,
     };
     serde_json::to_value(sc).unwrap()
 }
@@ -1196,7 +1848,7 @@ fn gen_intents(rng: &mut Rng, g: &mut GenCfg, max: usize, allow_undo_point: bool
 pub fn gen_c01(seed: u64, i: u64, thorough: bool) -> Value {
     let s = mix(seed, "C01", i);
     let mut rng = Rng::new(s);
-    let big_run = rng.chance(1, if thorough { 20 } else { 40 });
+    let big_run = rng.chance(1, if thorough { 20 } else { 50 });
     let nodes = if big_run { *rng.pick(&[2usize, 2, 3]) } else { *rng.pick(&[1usize, 2, 2, 2, 3, 3, 3, 4, 5]) };
     let mut g = GenCfg { tasks: 1 + rng.below(4) as u8, props: 1 + rng.below(4) as u8, ts_policy: rng.below(4) as u8, ts_counter: 0 };
     let mut scripts = Vec::new();
@@ -1239,6 +1891,10 @@ pub fn gen_c01(seed: u64, i: u64, thorough: bool) -> Value {
         urgency_mode: *rng.pick(&[0u8, 0, 1]),
         srv_seed: rng.next_u64(),
         rounds: vec![],
+        under_test: None,
+        no_final: false,
+        style: 0,
+        late: 0,
     };
     serde_json::to_value(sc).unwrap()
 }
@@ -1273,6 +1929,10 @@ pub fn gen_c02(seed: u64, i: u64, _thorough: bool) -> Value {
         urgency_mode: *rng.pick(&[0u8, 0, 1]),
         srv_seed: rng.next_u64(),
         rounds: vec![],
+        under_test: None,
+        no_final: false,
+        style: 0,
+        late: 0,
     };
     serde_json::to_value(sc).unwrap()
 }
@@ -1282,12 +1942,15 @@ pub fn gen_c02(seed: u64, i: u64, _thorough: bool) -> Value {
 pub fn shrink(scv: &Value) -> Vec<Value> {
     let Ok(sc) = serde_json::from_value::<Scenario>(scv.clone()) else { return vec![] };
     let mut out: Vec<Scenario> = Vec::new();
-    // drop a whole node (only the last, so node indices stay meaningful), if it has no faults
-    if sc.nodes > 1 {
+    // drop a whole node (only the last, so node indices stay meaningful)
+    if sc.nodes > 1 && sc.under_test.as_ref().map(|u| u.0 < sc.nodes - 1).unwrap_or(true) {
         let mut c = sc.clone();
         c.nodes -= 1;
         c.scripts.pop();
         c.faults.retain(|f| f.0 < c.nodes);
+        if c.late > 0 {
+            c.late -= 1;
+        }
         out.push(c);
         // or empty a node's script
         for n in 0..sc.nodes {
@@ -1303,7 +1966,7 @@ pub fn shrink(scv: &Value) -> Vec<Value> {
     for n in 0..sc.nodes {
         let len = sc.scripts[n].len();
         if len >= 4 {
-            for (lo, hi) in [(0, len / 2), (len / 2, len)] {
+            for (lo, hi) in [(if n >= sc.nodes - sc.late { 1 } else { 0 }, len / 2), (len / 2, len)] {
                 let mut c = sc.clone();
                 c.scripts[n].drain(lo..hi);
                 fix_faults(&mut c, n, lo, hi - lo);
@@ -1311,6 +1974,9 @@ pub fn shrink(scv: &Value) -> Vec<Value> {
             }
         }
         for a in 0..len {
+            if a == 0 && n >= sc.nodes - sc.late {
+                continue; // a late joiner must start with its sync
+            }
             let mut c = sc.clone();
             c.scripts[n].remove(a);
             fix_faults(&mut c, n, a, 1);
@@ -1323,6 +1989,7 @@ pub fn shrink(scv: &Value) -> Vec<Value> {
             let list = match &sc.scripts[n][a] {
                 Action::Commit { ops } => Some(ops.clone()),
                 Action::StaleUndo { then } => Some(then.clone()),
+                Action::Foreign { ops, .. } => Some(ops.clone()),
                 _ => None,
             };
             if let Some(ops) = list {
@@ -1369,6 +2036,38 @@ pub fn shrink(scv: &Value) -> Vec<Value> {
         c.urgency_mode = 0;
         out.push(c);
     }
+    if sc.style != 0 {
+        let mut c = sc.clone();
+        c.style = 0;
+        out.push(c);
+    }
+    if sc.late > 0 {
+        let mut c = sc.clone();
+        c.late = 0;
+        out.push(c);
+    }
+    if let Some((v, Action::CommitRaw { ops })) = &sc.under_test {
+        for k in 0..ops.len() {
+            let mut c = sc.clone();
+            let mut o = ops.clone();
+            o.remove(k);
+            c.under_test = Some((*v, Action::CommitRaw { ops: o }));
+            out.push(c);
+        }
+    }
+    for n in 0..sc.nodes {
+        for a in 0..sc.scripts[n].len() {
+            if let Action::CommitRaw { ops } = &sc.scripts[n][a] {
+                for k in 0..ops.len() {
+                    let mut c = sc.clone();
+                    let mut o = ops.clone();
+                    o.remove(k);
+                    c.scripts[n][a] = Action::CommitRaw { ops: o };
+                    out.push(c);
+                }
+            }
+        }
+    }
     out.into_iter().map(|s| serde_json::to_value(s).unwrap()).collect()
 }
 
@@ -1376,6 +2075,7 @@ fn set_ops(a: &mut Action, o: Vec<Intent>) {
     match a {
         Action::Commit { ops } => *ops = o,
         Action::StaleUndo { then } => *then = o,
+        Action::Foreign { ops, .. } => *ops = o,
         _ => {}
     }
 }
@@ -1401,9 +2101,74 @@ const STUB_A: &[&str] = &["server = SimServer (M-chain reference model behind th
 pub fn checks() -> Vec<CheckDef> {
     vec![
         CheckDef {
+            id: "C12",
+            level: "exploration",
+            runs_quick: 50_000,
+            runs_thorough: 8_000_000,
+            rule: "seeded histories on 1-3 replicas plus 0-2 late joiners; the reference server answers add_version with a seeded urgency (random / always high / always low) and each sync draws avoid_snapshots; arbitrary Unicode property names and values in half the runs, >1MB multi-version syncs in a fraction, thousands of tasks in the thorough tier. At the server every uploaded snapshot is inflated and parsed independently and must equal the replay of the chain up to its version, must follow an accepted version of that replica whose urgency met the replica's threshold; after the early replicas are quiescent the server discards the versions covered by its snapshot and new empty replicas join and must converge to the full replay; a replica holding data must never request a snapshot. Non-trivial: at least one snapshot was uploaded; distinct = distinct trace hash.",
+            gen: gen_c12,
+            run,
+            shrink,
+            real: REAL_A,
+            stub: STUB_A,
+            assumptions: &["the server only discards versions once every existing replica has passed its snapshot (otherwise out-of-date replicas legitimately fail, docs/src/snapshots.md)", "late joiners start with a sync"],
+        },
+        CheckDef {
+            id: "C14",
+            level: "exploration",
+            runs_quick: 400_000,
+            runs_thorough: 8_000_000,
+            rule: "send side: every version any replica sends in any run is walked by a strict decoder (serde_json::Value only): UTF-8 JSON {\"operations\":[...]}, each element exactly one of Create{uuid} / Delete{uuid} / Update{uuid,property,value|null,timestamp RFC3339 UTC} with no further key; the relative order of a replica's surviving updates must follow commit order (unique values); undone and never-committed operations must not appear. Receive side: a foreign client appends versions rendered from the documented grammar with shuffled field order, arbitrary whitespace, \\u escapes and 0/3/6/9-digit second fractions; all replicas must converge to the reference replay. Non-trivial: at least one foreign version was appended; distinct = distinct trace hash.",
+            gen: gen_c14,
+            run,
+            shrink,
+            real: REAL_A,
+            stub: STUB_A,
+            assumptions: &["the version document is the {\"operations\":[…]} wrapper every released implementation emits (the docs' bare-array examples are illustrative; no released replica parses them)"],
+        },
+        CheckDef {
+            id: "C07",
+            level: "exploration",
+            runs_quick: 300_000,
+            runs_thorough: 12_000_000,
+            rule: "seeded scripts of commits (with and without undo points, deletes of populated tasks, property removals), undo, stale undo (fetch, commit something else, then try), undo after sync and repeated undo, on 1-3 replicas that also sync. Oracles: the fetched undo list is the unsynced suffix from the last undo point; a successful undo removes exactly those operations and the replica invariant then pins the tasks to the earlier state; a stale or post-sync undo returns false and changes nothing; undone operations never reach the server (conservation). Non-trivial: at least one undo succeeded; distinct = distinct trace hash.",
+            gen: gen_c07,
+            run,
+            shrink,
+            real: REAL_A,
+            stub: STUB_A,
+            assumptions: &["operations are created through the TaskData API (valid, with true old values)"],
+        },
+        CheckDef {
+            id: "C04",
+            level: "fault_enumeration",
+            runs_quick: 12_000,
+            runs_thorough: 600_000,
+            rule: "for each seeded history (1-3 replicas, commits and syncs, sometimes >1MB pending) one sync is executed once fault-free to enumerate its interruption points (every storage call and every server request) and then once per point and fault kind {error before effect, effect then error/lost reply, process stop = future dropped, store kept}; after each: replica invariant, then the sync is repeated fault-free and replica and chain must equal the uninterrupted outcome, then all replicas sync to quiescence (convergence, conservation, bounded liveness). evaluations = executions; exhaustive per sampled sync, sampled over histories. Non-trivial: the scenario swept at least one point; distinct = distinct trace hash.",
+            gen: gen_c04,
+            run: run_sweep,
+            shrink,
+            real: REAL_A,
+            stub: STUB_A,
+            assumptions: &["process stop is modelled by dropping the replica's future and keeping only the committed store (in-memory storage here; the SQLite crash sweep is C06)", "storage errors surface as Error::Other like real rusqlite/I-O errors"],
+        },
+        CheckDef {
+            id: "C05",
+            level: "fault_enumeration",
+            runs_quick: 300_000,
+            runs_thorough: 2_000_000,
+            rule: "seeded histories on 1-2 replicas followed by arbitrary operation batches (valid or not: create of existing, update/delete of missing tasks, delete-then-create, property removal, undo points, arbitrary old values); after every commit the unsynced list must be the prior list plus the batch in order and tasks must equal M-apply(base state, unsynced) (the documented operation model); one further commit is then executed once per storage call index and fault kind {error before, error after, process stop} and the store must be exactly the before- or the after-state. evaluations = executions. Non-trivial: at least one point swept.",
+            gen: gen_c05,
+            run: run_sweep,
+            shrink,
+            real: REAL_A,
+            stub: STUB_A,
+            assumptions: &["in-memory storage here; the same sweep over SqliteStorage is part of C06"],
+        },
+        CheckDef {
             id: "C03",
             level: "exploration",
-            runs_quick: 60_000,
+            runs_quick: 200_000,
             runs_thorough: 3_000_000,
             rule: "round-structured histories: 2-3 replicas quiescent on a common state each commit one batch (per task: create+updates with distinct properties, or a delete), then synchronize; every round is re-executed from a copy of the common state under every order of first syncs (N! orders) followed by seeded interleaved catch-up syncs; each execution must equal the documented-winner model (M-winner) and all executions must agree. evaluations = executions (round x order). Non-trivial: a round in which at least two replicas committed something; distinct = distinct trace hash.",
             gen: gen_c03,
@@ -1416,7 +2181,7 @@ pub fn checks() -> Vec<CheckDef> {
         CheckDef {
             id: "C01",
             level: "exploration",
-            runs_quick: 200_000,
+            runs_quick: 100_000,
             runs_thorough: 12_000_000,
             rule: "seeded scenarios: 1-5 replicas, scripts of commit/sync actions (intents resolved through the TaskData API), tied/decreasing/random timestamps, 1/8 of runs with >1MB pending changes; syncs atomic, action order chosen by the seeded scheduler. A run is non-trivial if some sync pulled a remote version and then pushed local changes (a rebase happened); distinct = distinct hash of the (node,label,decision,scheduling choice) trace.",
             gen: gen_c01,
